@@ -220,6 +220,50 @@ int _vnacal_new_check_all_frequency_ranges(const char *function,
 
 
 /*
+ * _vnacal_new_check_parameter: validate a parameter without adding it
+ *   @function: name of user-called function
+ *   @vnp: pointer to vnacal_new_t structure
+ *   @parameter: parameter index such as VNACAL_ZERO
+ *
+ *   Make the same tests as _vnacal_new_get_parameter, in the same order
+ *   and with the same messages, but don't add anything to the parameter
+ *   hash.  Callers use this to validate all parameters of a standard
+ *   before adding any of them, so that a rejected standard leaves the
+ *   vnacal_new_t structure unchanged.
+ */
+int _vnacal_new_check_parameter(const char *function,
+	vnacal_new_t *vnp, int parameter)
+{
+    vnacal_t *vcp = vnp->vn_vcp;
+    vnacal_parameter_t *vpmrp;
+
+    if (parameter >= 0 &&
+	    hash_lookup(&vnp->vn_parameter_hash, parameter) != NULL) {
+	return 0;
+    }
+    if ((vpmrp = _vnacal_get_parameter(vcp, parameter)) == NULL) {
+	_vnacal_error(vcp, VNAERR_USAGE, "%s: invalid parameter index %d",
+		function, parameter);
+	return -1;
+    }
+    if (vnp->vn_frequencies_valid) {
+	if (check_single_frequency_range(function, vnp,
+		    vnp->vn_frequency_vector[0],
+		    vnp->vn_frequency_vector[vnp->vn_frequencies - 1],
+		    vpmrp) == -1) {
+	    return -1;
+	}
+    }
+    if (VNACAL_GET_PARAMETER_TYPE(vpmrp) == VNACAL_CORRELATED) {
+	vnacal_parameter_t *vpmrp_correlate = VNACAL_GET_PARAMETER_OTHER(vpmrp);
+
+	return _vnacal_new_check_parameter(function, vnp,
+		VNACAL_GET_PARAMETER_INDEX(vpmrp_correlate));
+    }
+    return 0;
+}
+
+/*
  * _vnacal_new_get_parameter: add/find parameter
  *   @function: name of user-called function
  *   @vnp: pointer to vnacal_new_t structure
